@@ -155,12 +155,25 @@ def _strpart_atom(info: Any, value: SymStr) -> Rx:
     it if there is none), tail = the part after the first c ("" if there is none)."""
     recv = info["recv"]
     base, meth, sep, k = recv.args
-    if base is not value:
+    folded = None
+    if isinstance(base, Term) and base.op == "strmeth" and base.args[0] is value and base.args[1] in ("lower", "upper", "casefold"):
+        folded = base.args[1]
+    elif base is not value:
         raise AtomError("partition of something else than the lexeme")
     if meth != "partition" or len(sep) != 1:
         raise AtomError("only partition() on a one-character separator is modelled")
-    c = Chars(CharSet.of(sep))
-    ns1 = Chars(CharSet.of(sep).negate())
+    seps = sep
+    if folded:
+        # pieces of lexeme.lower(): the separator stands for both of its cases in the lexeme itself, provided the
+        # folded separator can occur at all and the converter domain is indifferent to case (it has no letters)
+        want = sep.lower() if folded in ("lower", "casefold") else sep.upper()
+        if want != sep or not sep.isascii():
+            raise AtomError("partition of a case-folded lexeme at a separator the folding removes")
+        seps = sep.lower() + sep.upper() if sep.lower() != sep.upper() else sep
+        if info["kind"] == "convert" and info["which"] != "int":
+            raise AtomError("conversion of a piece of a case-folded lexeme other than int()")
+    c = Chars(CharSet.of(seps))
+    ns1 = Chars(CharSet.of(seps).negate())
     NS = star(ns1)
     if info["kind"] == "nonempty":
         if k == 0:
@@ -170,7 +183,7 @@ def _strpart_atom(info: Any, value: SymStr) -> Rx:
         return Seq(NS, c, Chars(CharSet([(0, 0x10FFFF)])), SIGMA_STAR)
     D = dom_int() if info["which"] == "int" else dom_float()
     # the converter domain must not contain the separator, so that D within NS is D itself
-    if accepts_some_with(D, sep):
+    if any(accepts_some_with(D, ch_) for ch_ in seps):
         raise AtomError(f"the domain of {info['which']}() contains the separator {sep!r}")
     if k == 0:
         return Seq(D, opt(Seq(c, SIGMA_STAR)))
@@ -356,9 +369,9 @@ def site_language(model: Model, regex_names: List[str], patterns: Dict[str, str]
                     if run.ctx.atom_info.get(key, {}).get("kind") == "convert":
                         truth = val == "ok"
                     lits.append((sig, bool(truth)))
-                elif key[0] in ("int-of-float", "int-digit-limit", "decimal-range"):
+                elif key[0] in ("int-of-float", "int-digit-limit", "decimal-range", "pow-unbounded"):
                     continue  # magnitude, not lexical shape
-            magnitude = any(isinstance(k, tuple) and k[0] in ("int-of-float", "int-digit-limit", "decimal-range") and val != "ok" for k, val in run.ctx.world.items())
+            magnitude = any(isinstance(k, tuple) and k[0] in ("int-of-float", "int-digit-limit", "decimal-range", "pow-unbounded") and val != "ok" for k, val in run.ctx.world.items())
             per_path.append((accepted, lits, (run, crash if (include_magnitude or not magnitude) else None)))
     except AtomError as err:
         out.undecided = f"predicate outside the modelled idioms: {err}"
@@ -395,7 +408,11 @@ def site_language(model: Model, regex_names: List[str], patterns: Dict[str, str]
             mag = any(isinstance(k, tuple) and k[0] == "int-of-float" and val != "ok" for k, val in _run.ctx.world.items())
             digits = any(isinstance(k, tuple) and k[0] == "int-digit-limit" and val != "ok" for k, val in _run.ctx.world.items())
             decrange = any(isinstance(k, tuple) and k[0] == "decimal-range" and val != "ok" for k, val in _run.ctx.world.items())
-            if decrange:
+            powbig = any(isinstance(k, tuple) and k[0] == "pow-unbounded" and val != "ok" for k, val in _run.ctx.world.items())
+            if powbig:
+                if cur.minimize().is_infinite():
+                    out.crashes.append(f"{crash} (lexemes of the shape of {w!r} with an exponent of many digits: a power with an exponent that nothing bounds exhausts memory or does not return)")
+            elif decrange:
                 if cur.minimize().is_infinite():
                     out.crashes.append(f"{crash} (lexemes of the shape of {w!r} with an exponent of 19 or more digits: decimal.Decimal refuses them with InvalidOperation, which is not a ValueError)")
             elif digits:
